@@ -100,8 +100,9 @@ def _expand(e, domains, only_simple: bool, atom_sort, stats):
     return e
 
 
-def ground_model_search(S, pc: List[Any], goal, k: int = 3, timeout_ms: int = 20000):
+def ground_model_search(S, pc: List[Any], goal, k: int = 3, timeout_ms: int = 20000, closure: bool = True):
     t0 = time.time()
+    closure_on = closure
     fs = list(S.distinctness()) + [f for f in pc if isinstance(f, z3.ExprRef)]
     if goal is not None:
         fs.append(z3.Not(goal))
@@ -153,6 +154,8 @@ def ground_model_search(S, pc: List[Any], goal, k: int = 3, timeout_ms: int = 20
     if not S.finite:
         cx = z3.Const("scope_closure_x", S.Atom)
         closure.append(z3.ForAll([cx], z3.Or(*[cx == a for a in atoms])))
+    if not closure_on:
+        closure = []  # consistency canary: only INSTANCES of the facts (consequences), no finite-domain assumption
     s = z3.Solver()
     s.set("timeout", timeout_ms)
     for f in fs2 + closure:
